@@ -250,6 +250,20 @@ class E1(Component):
         return case
 
 
+class E1Wide(E1):
+    """Exact-boundary triples up to N tokens per value through Size/Prefix/PositionFilter
+    (filter_tables and filter_pair); SuffixFilter only through filter_pair."""
+    name = "E1-wide"
+    rule = "every exact-boundary (n,m,o) instance up to N tokens"
+
+    def bounds(self, tier):
+        return {"N": 110 if tier == "quick" else 220, "grid": 100,
+                "measures": ["JACCARD", "COSINE", "DICE"], "filters": list(E_FILTERS)}
+
+    def cases(self, tier):
+        return enumgen.e1_exact_cases(self.bounds(tier)["N"], chunk=80)
+
+
 class E2(Component):
     name = "E2"
     kind = "enum"
@@ -509,4 +523,4 @@ class Large(Component):
         ctx.label("large:" + ft)
 
 
-COMPONENTS = [RandomSet(), RandomEd(), E1(), E2(), E3(), Dense(), Large()]
+COMPONENTS = [RandomSet(), RandomEd(), E1(), E1Wide(), E2(), E3(), Dense(), Large()]
